@@ -4,7 +4,7 @@
    (signed types: negative numbers are negative Z). [wrap_<u|s><bits> z] is the value of that
    type congruent to z modulo 2^bits: Go's result of + - * << unary - ^ and of conversions.
    int, uint and uintptr are 64 bits wide (64-bit platforms only). *)
-From Coq Require Import ZArith.
+From Coq Require Import ZArith List.
 Open Scope Z_scope.
 
 Definition wrap_u8 (z : Z) : Z := z mod 256.
@@ -28,3 +28,14 @@ Definition wrap_s64 (z : Z) : Z :=
                                           closed on every type's range)
    ^x                                   : wrap (Z.lnot x)
    comparisons                          : Z.eqb, Z.ltb, ... on the denoted integers *)
+
+(* Results of translated functions that contain a for loop: the loop is a Fixpoint over an
+   explicit fuel parameter; running out of fuel is the distinct outcome OutOfFuel (the agreement
+   theorems prove that it does not occur for the fuel they state). *)
+Inductive loopres (A : Type) : Type := Done (a : A) | OutOfFuel.
+Arguments Done {A} a.
+Arguments OutOfFuel {A}.
+
+(* s[i] for a constant string s (its bytes) : None = index out of range (Go panics) *)
+Definition go_index_bytes (l : list Z) (i : Z) : option Z :=
+  if andb (0 <=? i) (i <? Z.of_nat (length l)) then nth_error l (Z.to_nat i) else None.
